@@ -276,6 +276,55 @@ func libVerify(msg []byte, pub crypto.PublicKey) error {
 	return vs[0].Err
 }
 
+// relay: accept into a queue whose target defers, stop it, restart on the same spool with the
+// real SMTP client target behind it; returns what the next hop received (nil: harness time-out).
+func relay(t *testing.T, e *env, meta *module.MsgMetadata, from string, hdr textproto.Header, bodyBuf buffer.Buffer) ([]byte, string) {
+	ctx := context.Background()
+	spool, err := os.MkdirTemp(e.dir, "spool")
+	if err != nil {
+		t.Fatal(err)
+	}
+	defer os.RemoveAll(spool)
+	silent := vtrace.New(nil, 0)
+	defer1 := &scripted.Target{Tr: silent, Plan: []scripted.AttemptPlan{{Start: "temp"}}}
+	mk := func(tgt module.DeliveryTarget, retry time.Duration) *queue.Queue {
+		q, err := queue.VerifNewQueue(queue.VerifConfig{Location: spool, Target: tgt, MaxTries: 5, MaxParallelism: 1,
+			InitialRetryTime: retry, RetryTimeScale: 1, PostInitDelay: 0, Hostname: "mx.example.org",
+			AutogenMsgDomain: "example.org", Log: log.Logger{Out: log.NopOutput{}}})
+		if err != nil {
+			t.Fatal(err)
+		}
+		return q
+	}
+	q1 := mk(defer1, time.Hour)
+	d, err := q1.Start(ctx, meta, from)
+	if err != nil {
+		t.Fatal(err)
+	}
+	if err := d.AddRcpt(ctx, "rcpt@nexthop.example", smtp.RcptOptions{}); err != nil {
+		t.Fatal(err)
+	}
+	if err := d.Body(ctx, hdr, bodyBuf); err != nil {
+		t.Fatal(err)
+	}
+	if err := d.Commit(ctx); err != nil {
+		t.Fatal(err)
+	}
+	deadline := time.Now().Add(120 * time.Second)
+	for defer1.Att() == 0 && time.Now().Before(deadline) {
+		time.Sleep(time.Millisecond)
+	}
+	q1.Close() // waits for the deferred attempt; the message stays in the spool
+	q2 := mk(e.down, 0)
+	defer q2.Close()
+	select {
+	case got := <-e.cap.msgs:
+		return got, ""
+	case <-time.After(150 * time.Second):
+		return nil, "harness time-out waiting for the next hop"
+	}
+}
+
 func runRow(t *testing.T, e *env, r Row, tr *vtrace.Tracer, seed int64) {
 	rng := rand.New(rand.NewSource(seed*104729 + int64(r.ID)))
 	domain := "example.org"
@@ -314,55 +363,13 @@ func runRow(t *testing.T, e *env, r Row, tr *vtrace.Tracer, seed int64) {
 	textproto.WriteHeader(&signed, hdr)
 	signed.Write(body)
 
-	// spool: accept into a queue whose target defers, stop it, restart on the same spool with the
-	// real SMTP client target behind it
-	spool, err := os.MkdirTemp(e.dir, "spool")
-	if err != nil {
-		t.Fatal(err)
-	}
-	defer os.RemoveAll(spool)
-	silent := vtrace.New(nil, r.ID)
-	defer1 := &scripted.Target{Tr: silent, Plan: []scripted.AttemptPlan{{Start: "temp"}}}
-	mk := func(tgt module.DeliveryTarget, retry time.Duration) *queue.Queue {
-		q, err := queue.VerifNewQueue(queue.VerifConfig{Location: spool, Target: tgt, MaxTries: 5, MaxParallelism: 1,
-			InitialRetryTime: retry, RetryTimeScale: 1, PostInitDelay: 0, Hostname: "mx.example.org",
-			AutogenMsgDomain: "example.org", Log: log.Logger{Out: log.NopOutput{}}})
-		if err != nil {
-			t.Fatal(err)
-		}
-		return q
-	}
-	q1 := mk(defer1, time.Hour)
-	d, err := q1.Start(ctx, meta, from)
-	if err != nil {
-		t.Fatal(err)
-	}
-	if err := d.AddRcpt(ctx, "rcpt@nexthop.example", smtp.RcptOptions{}); err != nil {
-		t.Fatal(err)
-	}
-	if err := d.Body(ctx, hdr, bodyBuf); err != nil {
-		t.Fatal(err)
-	}
-	if err := d.Commit(ctx); err != nil {
-		t.Fatal(err)
-	}
-	deadline := time.Now().Add(120 * time.Second)
-	for defer1.Att() == 0 && time.Now().Before(deadline) {
-		time.Sleep(time.Millisecond)
-	}
-	q1.Close() // waits for the deferred attempt; the message stays in the spool
-	q2 := mk(e.down, 0)
-	var got []byte
-	select {
-	case got = <-e.cap.msgs:
-		out["delivered"] = true
-	case <-time.After(150 * time.Second):
-		out["note"] = "harness time-out waiting for the next hop"
-		q2.Close()
+	got, note := relay(t, e, meta, from, hdr, bodyBuf)
+	if got == nil {
+		out["note"] = note
 		tr.Emit("Timeout", vtrace.Ev{"in": r.In})
 		return
 	}
-	q2.Close()
+	out["delivered"] = true
 	// what arrived = Received-less? the SMTP client adds nothing; compare from the signature on
 	_, gotBody, _ := splitMessage(got)
 	out["bodyEqual"] = bytes.Equal(gotBody, body)
